@@ -68,3 +68,13 @@ chk("C04",
     "Trusted: per-program predicates in props/c04.py. Two open known findings (membership in a random-size list; sum/product when the size shares a rand set with an element) are matched by selector + predicted deviation.",
     "deviation-bounded exhaustive exploration of list programs and edit histories against a Python-list twin",
     "DESIGN.md section 3 C04")
+chk("C10",
+    "Every coverpoint specification of a grammar (explicit bins over values/ranges incl. unordered, adjacent, overlapping, nested ranges; bin arrays with/without count; pairs of bin entries; auto-bins with 5 auto_bin_max values on 3-, 4- and 8-bit types; enum coverpoints; ignore/illegal sets; iff as field and lambda) x EVERY value of the coverpoint's type sampled from a fresh covergroup (exhaustive (specification, value) table) x all sample sequences of length<=3 over bin representatives with the iff flag on/off. Oracle: reference partitioner and counters written from the statement; bins identified by position.",
+    "Trusted: reference partitioner mc/cov.py. Bin names are not asserted here (C13 compares them between representations).",
+    "exhaustive (specification, value) table and bounded sample sequences against a reference partitioner",
+    "DESIGN.md section 3 C10")
+chk("C19",
+    "Every (value, mask) pair below 2^w on a w-bit coverpoint (w=6 quick, 8 thorough: 65536 masks x values) and every pattern string of up to 3 digits in the three bases with x ? _ at any position, as single wildcard bins (one and two patterns per bin) and wildcard bin arrays (no count, counts 1..3) x EVERY sample value of the type. Oracle: hit <=> (v & mask) == (value & mask) for some pattern; array = partition of the ascending matching values of the coverpoint's type.",
+    "Trusted: matching()/partition reference in props/c19.py. One open known finding (array patterns with wildcard bits above the mask's top set bit), attributed only when the observed bins equal the exact predicted deviation.",
+    "exhaustive pattern x sample-value table against a reference matcher",
+    "DESIGN.md section 3 C19")
